@@ -24,6 +24,9 @@ def handleIndep (op : String) (j : Json) : Option (Except String Json) :=
   | "iequiv" => some do
       let g ← getDG (← fld j "g"); let h ← getDG (← fld j "h")
       pure (Json.bool (iEquivalent g h))
+  | "vstructures" => some do
+      let g ← getDG (← fld j "g")
+      pure (Json.arr ((vStructures g).map (fun t => Json.arr #[Json.num t.1, Json.num t.2.1, Json.num t.2.2])).toArray)
   | "ci_holds" => some do
       let p ← fldFactor j "p"
       pure (Json.bool (ciHolds p (← fldNats j "x") (← fldNats j "y") (← fldNats j "z")))
